@@ -16,6 +16,7 @@ NONCANON = ["{a=1;}", "{ a = 1;\n\n\n  b = 2; }\n", "{\n  a   = 1;\n}\n", "{ a =
             "{ a = [1 2]; }\n", "\n\n{ a = 1; }\n"]
 ERRONEOUS = ["{ a = ; }\n", "{ a = 1;", "1 2 ]", "{ a = 1; } }", "let in", "{ a = 1;\n  b = ;\n}\n"]
 BLANK = ["", "\n", "\n\n", "   ", "# only a comment\n"]
+BOM = ["\ufeff{ a = 1; }\n", "\ufeff{\n  a = 1;\n}\n", "\ufeff"]          # a byte-order mark in front (both channels must treat it alike)
 NON_EDITABLE = ["[ 1 2 ]\n", "\"s\"\n", "1\n", "x\n"]
 COMMANDS = [
     {"cmd": "test"},
@@ -84,7 +85,7 @@ def check(tier: str, seed: int) -> int:
                 if nl == 1:
                     texts.append(("loose", render_doc(dict(d, wrap=w, nl=nl), loose=True)))
     texts += [("noncanon", t) for t in NONCANON] + [("error", t) for t in ERRONEOUS] + [("blank", t) for t in BLANK] \
-        + [("noneditable", t) for t in NON_EDITABLE]
+        + [("noneditable", t) for t in NON_EDITABLE] + [("bom", t) for t in BOM]
     cases = []
     sp_budget = 40 if tier == "quick" else 400
     for cls, t in texts:
